@@ -45,7 +45,7 @@ var ctxs = []ctxDef{
 	{"iftest", "special", func(c string) string { return "(if (< " + c + " 0) 1 2)" }, false},
 	{"letinit", "special", func(c string) string { return "(let ((r " + c + ")) (+ r 1))" }, true},
 	{"letbody", "special", func(c string) string { return "(let ((r 1)) (+ r " + c + "))" }, true},
-	{"progn", "special", func(c string) string { return "(progn (tr 'pg 0) " + c + ")" }, true},
+	{"progn", "plain", func(c string) string { return "(progn (tr 'pg 0) " + c + ")" }, true},
 	{"cond", "special", func(c string) string { return "(cond ((< 1 0) 0) (t " + c + "))" }, true},
 	{"when", "special", func(c string) string { return "(when t " + c + ")" }, false},
 	{"setq", "special", func(c string) string { return "(let ((r 0)) (setq r " + c + ") r)" }, true},
@@ -55,6 +55,7 @@ var ctxs = []ctxDef{
 	{"funcall-sym", "hof", nil, true},
 	{"apply", "hof", nil, false},
 	{"lambda", "hof", nil, true},
+	{"lambda-head", "hof", nil, true},
 }
 
 func ctxByName(name string) *ctxDef {
@@ -109,6 +110,8 @@ func callExpr(c *ctxDef, j int, args []string) string {
 		return "(apply #'" + name + " (list" + sp + "))"
 	case "lambda":
 		return "(funcall (lambda (q) (" + name + sp + ")) 0)"
+	case "lambda-head":
+		return "((lambda (q) (" + name + sp + ")) 0)"
 	}
 	return c.wrap("(" + name + sp + ")")
 }
@@ -142,7 +145,12 @@ func chainFn(i, next, a int, style string, c *ctxDef, variant int) string {
 		ps = params(a, style)
 	}
 	if next == 0 {
-		return fmt.Sprintf("(defun @f%d %s %s)", i, ps, leafValue(a, variant))
+		text := fmt.Sprintf("(defun @f%d %s %s)", i, ps, leafValue(a, variant))
+		if variant == 1 {
+			// the redefinition also renames the parameters (a stale lambda list would show)
+			text = strings.NewReplacer("pa", "qa", "pb", "qb", "pc", "qc").Replace(text)
+		}
+		return text
 	}
 	body := callExpr(c, next, argExprs(i, a, pnames))
 	if variant == 1 {
@@ -153,7 +161,7 @@ func chainFn(i, next, a int, style string, c *ctxDef, variant int) string {
 
 func addCalls(out *[]*program, tierThorough bool) {
 	styles := []string{"req", "opt"}
-	for _, shape := range []string{"chain2", "chain3", "mutual2", "mutual3", "fan3", "recleaf2", "chain4", "diamond4"} {
+	for _, shape := range []string{"chain2", "join3", "chain3", "mutual2", "mutual3", "fan3", "recleaf2", "chain4", "diamond4"} {
 		thoroughShape := shape == "chain4" || shape == "diamond4"
 		for ci := range ctxs {
 			c := &ctxs[ci]
@@ -161,6 +169,9 @@ func addCalls(out *[]*program, tierThorough bool) {
 				for _, style := range styles {
 					if style == "opt" && a == 0 {
 						continue
+					}
+					if a == 0 && strings.HasPrefix(c.name, "funcall-") {
+						continue // (funcall f) without arguments is rejected by slip: C04's finding, not this property
 					}
 					p := &program{fam: "calls", id: fmt.Sprintf("calls:%s:%s:%d:%s", shape, c.name, a, style),
 						thorough: thoroughShape || !c.quick || (style == "opt" && a == 3)}
@@ -217,6 +228,20 @@ func addCalls(out *[]*program, tierThorough bool) {
 						}
 						p.alts = []string{"", chainFn(2, 0, a, style, c, 1), ""}
 						p.main = "(@f1" + mainArgs(a) + ")"
+					case "join3":
+						// two callers of one callee: f1 -> f3 <- f2
+						if c.name == "seq" {
+							continue
+						}
+						a2 := argExprs(2, a, pnames)
+						p.defs = []string{
+							fmt.Sprintf("(defun @f1 %s %s)", params(a, "req"), callExpr(c, 3, argExprs(1, a, pnames))),
+							fmt.Sprintf("(defun @f2 %s %s)", params(a, "req"), callExpr(c, 3, a2)),
+							chainFn(3, 0, a, style, c, 0),
+						}
+						p.alts = []string{"", "", chainFn(3, 0, a, style, c, 1)}
+						p.main = "(+ (@f1" + mainArgs(a) + ") (@f2" + mainArgs(a) + "))"
+						p.feats = append(p.feats, "two-callers")
 					case "diamond4":
 						if c.name == "seq" {
 							continue
@@ -294,7 +319,7 @@ func addVars(out *[]*program) {
 		"arg":     "(+ x *@v1*)",
 		"if":      "(if (< 0 1) (+ x *@v1*) 0)",
 		"letinit": "(let ((r *@v1*)) (+ r x))",
-		"call":    "(@f3 *@v1* x)",
+		"call":    "(if t (@f3 *@v1* x) 0)",
 	}
 	var names []string
 	for n := range uses {
@@ -321,9 +346,19 @@ func addVars(out *[]*program) {
 			*out = append(*out, p)
 		}
 	}
+	// defparameter with a traced initial value: evaluated exactly once per evaluation of the definition
+	*out = append(*out, &program{fam: "var", id: "var:read:arg:defparameter-traced", feats: []string{"defvar-read"},
+		defs: []string{"(defparameter *@v1* (tr 'init 7))", "(defun @f1 (x) (+ x *@v1*))", "(defun @f2 (y) (if t (@f1 (* y 2)) 0))"},
+		alts: []string{"(defparameter *@v1* (tr 'init2 9))", "", ""},
+		main: "(@f2 3)"})
+	// a function whose body IS the global variable, and a setter: the compiled reference must stay a reference
+	*out = append(*out, &program{fam: "var", id: "var:direct-state", stateful: true, feats: []string{"global-state", "defvar-read"},
+		defs: []string{"(defvar *@v1* 1)", "(defun @f1 () *@v1*)", "(defun @f2 (n) (if t (setq *@v1* n) 0))"},
+		alts: []string{"", "(defun @f1 () (if t (* 10 *@v1*) 0))", ""},
+		main: "(list (@f1) (@f2 (+ (@f1) 1)) (@f1))"})
 	// state: a global counter bumped by the main expression
 	for _, kind := range []string{"defvar", "defparameter"} {
-		for _, cn := range []string{"body", "if"} {
+		for _, cn := range []string{"letinit", "if"} {
 			c := ctxByName(cn)
 			*out = append(*out, &program{fam: "var", id: "var:counter:" + kind + ":" + cn, stateful: true, feats: []string{"global-state"},
 				defs: []string{"(" + kind + " *@v1* 0)",
@@ -339,6 +374,9 @@ func addClosures(out *[]*program) {
 	for ci := range ctxs {
 		c := &ctxs[ci]
 		for a := 0; a <= 1; a++ {
+			if a == 0 && strings.HasPrefix(c.name, "funcall-") {
+				continue
+			}
 			args := argExprs(1, a, []string{"x"})
 			body := "(+ n 1)"
 			if a == 1 {
@@ -351,6 +389,9 @@ func addClosures(out *[]*program) {
 					"(let ((n 5)) (defun @f2 " + params(a, "req") + " (tr 'clo " + body + ")))"},
 				alts: []string{"", "(let ((n 8) (k 2)) (defun @f2 " + params(a, "req") + " (tr 'clo2 (* k " + body + "))))"},
 				main: "(@f1 4)"})
+		}
+		if strings.HasPrefix(c.name, "funcall-") {
+			continue
 		}
 		// clo2: a counter closure (state captured by the function)
 		*out = append(*out, &program{fam: "closure", id: "closure:counter:" + c.name, stateful: true, thorough: !c.quick,
